@@ -325,10 +325,12 @@ func (w *c11World) hostCredential(h c11Host) ([]byte, error) {
 	}
 	if h.Kind == "badsig" {
 		p := signed.Proof[0].(map[string]interface{})
-		p["mac"] = "00" + p["mac"].(string)[2:]
-		if p["mac"] == "00"+"" {
-			p["mac"] = "11"
+		mac := p["mac"].(string)
+		first := byte('0')
+		if mac[0] == '0' {
+			first = '1'
 		}
+		p["mac"] = string(first) + mac[1:]
 	}
 	return json.Marshal(signed)
 }
@@ -749,7 +751,7 @@ func (g *c11Gen) tickSecs() int {
 
 func (g *c11Gen) hostOp() c11Op {
 	r := g.rng
-	kinds := []string{"ok", "ok", "ok", "ok", "fail", "garbage", "badsig", "wrongsubject", "suspension", "noexp", "short", "noproof", "twosubjects",
+	kinds := []string{"ok", "ok", "ok", "ok", "ok", "ok", "ok", "ok", "ok", "ok", "ok", "ok", "fail", "garbage", "badsig", "wrongsubject", "suspension", "noexp", "short", "noproof", "twosubjects",
 		"emptylist", "badlist", "status", "types3", "noctx", "subjtype"}
 	h := c11Host{URL: g.pick(c11Foreign), Kind: g.pick(kinds), Signer: g.pick([]string{"did:web:evil.example", "did:web:example.com:iam:alice"}),
 		ExpIn: []int{20, 920, 86420, 1820}[r.Intn(4)]}
@@ -850,9 +852,15 @@ func (g *c11Gen) next() c11Op {
 				st.Type = "OtherStatus"
 			case 1:
 				st.Purpose = "suspension"
-			case 2, 3:
+			case 2, 3, 4:
 				st.List = c11URL{Node: -1, Raw: g.pick(c11Foreign)}
+				if len(g.hosted) > 0 && r.Intn(5) != 0 {
+					st.List.Raw = g.pick(g.hosted)
+				}
 				st.Idx = strconv.Itoa(r.Intn(6))
+				if r.Intn(6) == 0 {
+					st.Idx = strconv.Itoa(6 + r.Intn(30))
+				}
 			}
 			sts = append(sts, st)
 		}
